@@ -43,6 +43,7 @@ def curated():
     S.append(inst("subset-perm", [("i16", 1), ("u8", 3), ("f64", 1)], [2, 0], 3, 0, 0, 1, 2))
     S.append(inst("overwrite", [("i32", 1), ("c8", 2)], [1, 0], 4, 2, 1, 0, 4, reattach=True))
     S.append(inst("append", [("i32", 1), ("c8", 2)], [0, 1], 2, 3, 2, 1, 4, reattach=True))
+    S.append(inst("overlap-extend", [("i32", 1), ("f32", 2)], [0, 1], 3, 3, 2, 0, 5, reattach=True))
     S.append(inst("append-promote", [("u16", 2), ("i8", 1)], [0, 1], 2, 2, 2, 0, 4, blocker=True))
     S.append(inst("nointerlace-buf", [("i16", 1), ("f32", 1)], [0, 1], 3, 0, 0, 0, 3, wil=1, ril=1))
     S.append(inst("mixed-interlace", [("i16", 2), ("u8", 1), ("i32", 1)], [2, 1], 3, 0, 0, 1, 2, wil=1, ril=0))
